@@ -262,6 +262,29 @@ pub fn guarded<C: StateCheck + ?Sized>(check: &C, text: &str, lines: &[Line], ou
 }
 
 /// Run one state: infer the hash key, execute, merge results.
+thread_local! {
+    static CRUMB: std::cell::RefCell<Option<std::fs::File>> = const { std::cell::RefCell::new(None) };
+}
+static CRUMB_N: AtomicU64 = AtomicU64::new(0);
+
+/// breadcrumb for the supervisor: the state this worker thread is about to execute (see main::supervise)
+fn leave_crumb(key: Key, text: &str) {
+    let Ok(dir) = std::env::var("VERIF_CRUMBS") else { return };
+    CRUMB.with(|c| {
+        let mut c = c.borrow_mut();
+        if c.is_none() {
+            let n = CRUMB_N.fetch_add(1, Ordering::Relaxed);
+            *c = std::fs::OpenOptions::new().create(true).write(true).truncate(true).open(format!("{dir}/{n}.txt")).ok();
+        }
+        if let Some(f) = c.as_mut() {
+            use std::os::unix::fs::FileExt;
+            // one write, no truncation: the first field is the length of the text that is valid
+            let buf = format!("{:010} {} {}\n{}", text.len(), key.0, key.1, text);
+            let _ = f.write_all_at(buf.as_bytes(), 0);
+        }
+    });
+}
+
 pub fn run_state<C: StateCheck>(check: &C, base: &str, lines: &[Line], depth: usize, shared: &Shared, out: &mut Out) {
     let text = full_text(base, lines);
     let key: Key;
@@ -270,16 +293,19 @@ pub fn run_state<C: StateCheck>(check: &C, base: &str, lines: &[Line], depth: us
         match sched::next_key() {
             Some(k) => {
                 key = k;
+                leave_crumb(key, &text);
                 panic = guarded(check, &text, lines, out);
             }
             None => {
                 // fall back to isolated execution with a fresh known key
                 key = (0xA5A5u64 << 40 | shared.states_executed.load(Ordering::Relaxed), sched::K1);
+                leave_crumb(key, &text);
                 panic = sched::isolated(key, || guarded(check, &text, lines, out));
             }
         }
     } else {
         key = ((0x5A5Au64 << 40) + shared.states_executed.load(Ordering::Relaxed), sched::K1);
+        leave_crumb(key, &text);
         panic = sched::isolated(key, || guarded(check, &text, lines, out));
     }
     merge(shared, &text, lines.len() + base.lines().count(), depth, key, out, panic);
